@@ -1,4 +1,478 @@
 import FqModel.Proto
-/-! driver for C01 (stub — replaced by the property's own driver) -/
-open FqModel.Proto
-def main : IO Unit := run (fun _ _ => "BADOP driver-stub")
+import FqModel.Bits
+import FqModel.Bitio
+import FqModel.C01Readers
+import FqModel.C01Spec
+/-! driver for C01
+
+  `r64 <hex buf> <firstBit> <nBits>`            TAB `<value>|panic`      bitio.Read64
+  `w64 <v> <nBits> <hex buf> <firstBit>`        TAB `<hex buf'>|panic`   bitio.Write64
+  `bw <nBits>:<hex> …`                          TAB `<hex written>`      bitio.IOBitWriter over a bytes.Buffer: WriteBits per chunk, then Flush
+  `h <term> | <op> ; <op> ; …`                  TAB `<obs>;<obs>;…`      one history on one reader composition
+
+  term (prefix):  B <hex> <nBits|-1> | S <off> <n> T | M <k> T×k | Z <n> | L <n> T | I U
+                  U: R <hex> | F <hex> | G <size> <seed> | A <minRead> U | P <precision> <total> U | C U | Y T | y T
+  op:  ra n off | rd n | sk off s|c|e | cl | rf n | raf n off | ird n | isk off s|c|e
+  obs: `<n> <hex|-> <ok|eof|off|neg|ueof|oth>` | `panic` | `hang`
+       (bit reads: hex of the n bits, last byte zero padded; seeks: n = position; rf/raf: n = returned value,
+        hex = the bits read into p)
+
+  verdict: the property predicate (cursor over `den`) on the implementation's observations — independent of
+  the operational model — then model observations = implementation observations.
+-/
+open FqModel FqModel.Proto FqModel.Bitio
+
+/-! ### parsing -/
+
+def genByte (seed i : Nat) : UInt8 := UInt8.ofNat ((i * 7 + i / 256 * 13 + seed) % 256)
+
+def genData (size seed : Nat) : List UInt8 := (List.range size).map (genByte seed)
+
+def parseInt (s : String) : Option Int := s.toInt?
+
+/-- term parser; `fuel` bounds the recursion (number of tokens) -/
+def parseTerm : Nat → List String → Option (Rd × List String)
+  | 0, _ => none
+  | fuel+1, ws =>
+    match ws with
+    | "B" :: hex :: nb :: rest => do
+      let data ← bytesOfHex hex
+      let nBits ← (if nb == "-1" then some none else nb.toNat?.map some)
+      pure (newBitReader data nBits, rest)
+    | "S" :: off :: n :: rest => do
+      let off ← off.toNat?
+      let n ← n.toNat?
+      let (r, rest) ← parseTerm fuel rest
+      pure (newSect r off n, rest)
+    | "M" :: k :: rest => do
+      let k ← k.toNat?
+      let rec loop : Nat → List String → List Rd → Option (List Rd × List String)
+        | 0, rest, acc => some (acc.reverse, rest)
+        | k+1, rest, acc => do
+          let (r, rest) ← parseTerm fuel rest
+          loop k rest (r :: acc)
+      let (rs, rest) ← loop k rest []
+      match newMulti rs with
+      | .ok m => pure (m, rest)
+      | _ => none
+    | "Z" :: n :: rest => do
+      let n ← n.toNat?
+      pure (.zero 0 n, rest)
+    | "L" :: n :: rest => do
+      let n ← n.toNat?
+      let (r, rest) ← parseTerm fuel rest
+      pure (.limit r n, rest)
+    | "I" :: rest => do
+      let (b, rest) ← parseTerm fuel rest
+      pure (newIOBits b, rest)
+    | "R" :: hex :: rest => do
+      let data ← bytesOfHex hex
+      pure (.raw data 0 false, rest)
+    | "F" :: hex :: rest => do
+      let data ← bytesOfHex hex
+      pure (.raw data 0 true, rest)
+    | "G" :: size :: seed :: rest => do
+      let size ← size.toNat?
+      let seed ← seed.toNat?
+      pure (.raw (genData size seed) 0 true, rest)
+    | "A" :: m :: rest => do
+      let m ← m.toNat?
+      let (b, rest) ← parseTerm fuel rest
+      pure (.ahead b m 0 [] 0, rest)
+    | "P" :: prec :: total :: rest => do
+      let prec ← prec.toNat?
+      let total ← total.toNat?
+      if prec = 0 then none else
+      let (b, rest) ← parseTerm fuel rest
+      pure (newProgress b prec total, rest)
+    | "C" :: rest => do
+      let (b, rest) ← parseTerm fuel rest
+      pure (.ctx b, rest)
+    | "Y" :: rest => do
+      let (r, rest) ← parseTerm fuel rest
+      pure (.ioBytes r true none {} 0, rest)
+    | "y" :: rest => do
+      let (r, rest) ← parseTerm fuel rest
+      pure (.ioBytes r false none {} 0, rest)
+    | _ => none
+
+inductive HOp
+  | ra (n : Nat) (off : Int) | rd (n : Nat) | sk (off : Int) (w : Whence) | cl
+  | rf (n : Nat) | raf (n : Nat) (off : Int) | ird (n : Nat) | isk (off : Int) (w : Whence)
+deriving Repr, Inhabited
+
+def parseWhence : String → Option Whence
+  | "s" => some .start | "c" => some .current | "e" => some .end_ | _ => none
+
+def parseOp (s : String) : Option HOp :=
+  match words s with
+  | ["ra", n, off] => do pure (.ra (← n.toNat?) (← parseInt off))
+  | ["rd", n] => do pure (.rd (← n.toNat?))
+  | ["sk", off, w] => do pure (.sk (← parseInt off) (← parseWhence w))
+  | ["cl"] => some .cl
+  | ["rf", n] => do pure (.rf (← n.toNat?))
+  | ["raf", n, off] => do pure (.raf (← n.toNat?) (← parseInt off))
+  | ["ird", n] => do pure (.ird (← n.toNat?))
+  | ["isk", off, w] => do pure (.isk (← parseInt off) (← parseWhence w))
+  | _ => none
+
+/-! ### observations -/
+
+inductive Obs
+  | res (n : Int) (data : List UInt8) (err : String)
+  | panic | hang
+deriving Repr, BEq, Inhabited
+
+def errStr : Option Err → String
+  | none => "ok" | some .eof => "eof" | some .offset => "off" | some .negNBits => "neg"
+  | some .unexpectedEOF => "ueof" | some .seek => "oth" | some .other => "oth"
+
+def hexOrDash (bs : List UInt8) : String := if bs.isEmpty then "-" else hexOfBytes bs
+
+def Obs.str : Obs → String
+  | .res n d e => s!"{n} {hexOrDash d} {e}"
+  | .panic => "panic" | .hang => "hang"
+
+def parseObs (s : String) : Option Obs :=
+  match words s with
+  | ["panic"] => some .panic
+  | ["hang"] => some .hang
+  | [n, hex, e] => do
+    let n ← parseInt n
+    let d ← bytesOfHex hex
+    if ["ok", "eof", "off", "neg", "ueof", "oth"].contains e then pure (.res n d e) else none
+  | _ => none
+
+/-! ### the model on a history -/
+
+def isBitOp : HOp → Bool
+  | .ird _ | .isk _ _ => false
+  | _ => true
+
+def modelOp (s : Rd) (op : HOp) : Out :=
+  match op with
+  | .ra n off => step depthFuel s (.readAt n off)
+  | .rd n => step depthFuel s (.read n)
+  | .sk off w => step depthFuel s (.seek off w)
+  | .cl => step depthFuel s .clone
+  | .rf n => readFull depthFuel s n
+  | .raf n off => readAtFull depthFuel s n off
+  | .ird n => step depthFuel s (.readB n)
+  | .isk off w => step depthFuel s (.seekB off w)
+
+def resObs (op : HOp) (r : Res) : Obs :=
+  match op with
+  | .ird _ => .res r.n r.bytes (errStr r.err)
+  | .isk _ _ | .sk _ _ | .cl => .res r.n [] (errStr r.err)
+  | _ => .res r.n (packR r.bits) (errStr r.err)
+
+/-- model observations, quirk flags accumulated up to and including each op, fault message -/
+def runModel : Rd → List HOp → Nat → List (Obs × Nat × String) × Option String
+  | _, [], _ => ([], none)
+  | s, op :: ops, q =>
+    match modelOp s op with
+    | .ok (s', r) =>
+      let q := q ||| r.q
+      let (rest, bad) := runModel s' ops q
+      ((resObs op r, q, "") :: rest, bad)
+    | .fault why => ([(.panic, q, why)], none)
+    | .hang => ([(.hang, q, "")], none)
+    | .unsupported why => ([], some why)
+
+/-! ### the property predicate: a cursor over the denoted bit string -/
+
+/-- the denoted bit string as a length and a slice accessor (so that a 600 KiB file is never
+    expanded into a list of 5 M bits); cross-checked against `den` on small compositions -/
+structure DenF where
+  len : Nat
+  get : Nat → Nat → Bits     -- get off n = slice den off n (clamped at the end)
+
+def bytesDenF (a : Array UInt8) : DenF :=
+  ⟨8 * a.size, fun off n =>
+    let first := off / 8
+    let cnt := (off % 8 + n + 7) / 8
+    slice (bytesToBits (a.extract first (first + cnt)).toList) (off % 8) n⟩
+
+def DenF.sect (d : DenF) (base n : Nat) : DenF :=
+  let len := min n (d.len - base)
+  ⟨len, fun off k => if off ≥ len then [] else d.get (base + off) (min k (len - off))⟩
+
+def DenF.append (a b : DenF) : DenF :=
+  ⟨a.len + b.len, fun off k =>
+    if off ≥ a.len then b.get (off - a.len) k
+    else
+      let x := a.get off k
+      if x.length < k then x ++ b.get 0 (k - x.length) else x⟩
+
+def DenF.empty : DenF := ⟨0, fun _ _ => []⟩
+
+def DenF.zero (n : Nat) : DenF := ⟨n, fun off k => List.replicate (min k (n - off)) false⟩
+
+mutual
+def denF : Rd → DenF
+  | .sect r base _ limit => (denF r).sect base (limit - base)
+  | .multi rs _ _ => denFList rs
+  | .zero _ n => DenF.zero n
+  | .limit r n => (denF r).sect 0 n
+  | .ioBits b _ _ => bytesDenF (denByF b)
+  | .raw data _ _ => bytesDenF data.toArray
+  | .ahead b _ _ _ _ => bytesDenF (denByF b)
+  | .progress b _ => bytesDenF (denByF b)
+  | .ctx b => bytesDenF (denByF b)
+  | .ioBytes r _ _ _ _ => let d := denF r; bytesDenF (packR (d.get 0 d.len)).toArray
+def denFList : List Rd → DenF
+  | [] => DenF.empty
+  | r :: rs => (denF r).append (denFList rs)
+def denByF : Rd → Array UInt8
+  | .raw data _ _ => data.toArray
+  | .ahead b _ _ _ _ => denByF b
+  | .progress b _ => denByF b
+  | .ctx b => denByF b
+  | .ioBytes r _ _ _ _ =>
+    let d := denF r
+    (packR (d.get 0 d.len)).toArray
+  | _ => #[]
+end
+
+structure Cur where
+  bit : Bool                 -- bit reader on top (else byte reader)
+  d : DenF
+  dB : Array UInt8
+  pos : Int := 0
+  rem : Option Nat := none   -- LimitReader budget
+  small : Option Bits := none  -- `den` as a list, for the cross-check of `DenF`
+  seekLimit : Nat := 0         -- seeks to 0..seekLimit must be accepted
+  unalignedView : Bool := false  -- byte view (IOReadSeeker) of a bit string whose length is not a byte multiple
+
+def mkCur (s : Rd) : Cur :=
+  match s with
+  | .limit r n => { bit := true, d := denF r, dB := #[], rem := some n,
+                    small := if (denF r).len ≤ 4096 then some (den r) else none }
+  | .sect .. | .multi .. | .zero .. | .ioBits .. =>
+    { bit := true, d := denF s, dB := #[], small := if (denF s).len ≤ 4096 then some (den s) else none,
+      seekLimit := (denF s).len }
+  | .ioBytes r .. =>
+    -- a byte view of a bit string whose length is not a byte multiple: the padded last byte is not seekable
+    let a := denByF s
+    { bit := false, d := DenF.empty, dB := a, seekLimit := (denF r).len / 8, unalignedView := (denF r).len % 8 != 0 }
+  | _ =>
+    let a := denByF s
+    { bit := false, d := DenF.empty, dB := a, seekLimit := a.size }
+
+def firstDiff (a b : Bits) : Nat := ((a.zip b).takeWhile (fun (x, y) => x == y)).length
+
+inductive PV | ok | fail (why : String) | bad (why : String)
+
+/-- read of (up to) `n` bits at bit position `p`; `k` bits `bits` were returned with error class `e`;
+    `full` = the call promises all n bits or an error (ReadFull) -/
+def checkBitRead (c : Cur) (p : Int) (n : Nat) (k : Int) (data : List UInt8) (e : String) : PV :=
+  if k < 0 then .fail s!"negative count {k}" else
+  let k := k.toNat
+  if k > n then .fail s!"{k} bits returned, {n} requested" else
+  let all := bytesToBits data
+  if all.length < k then .bad "observation has fewer bits than n" else
+  let bits := all.take k
+  let over : Bool := match c.rem with
+    | some r => decide (k > r)
+    | none => false
+  if over then .fail s!"{k} bits returned beyond the limit {c.rem.getD 0}" else
+    if p < 0 then (if k > 0 then .fail "bits returned at a negative offset" else .ok) else
+    let p := p.toNat
+    let expected := c.d.get p k
+    let selfcheck := match c.small with
+      | some l => expected == slice l p k
+      | none => true
+    if !selfcheck then .bad "DenF and den disagree" else
+    if expected.length < k then .fail s!"{k} bits returned at {p}, logical end is {c.d.len}" else
+    if bits != expected then .fail s!"bit {firstDiff bits expected} of the read at {p} differs from the data" else
+    let atEnd := p + k ≥ c.d.len || c.rem == some k
+    if e == "eof" && !atEnd then .fail s!"eof at {p}+{k}, logical end is {c.d.len}" else
+    if e != "ok" && e != "eof" && k > 0 then .fail s!"error {e} together with data" else
+    if e != "ok" && e != "eof" && p < c.d.len then .fail s!"error {e} inside the data" else
+    if e == "ok" && k == 0 && n > 0 && p < c.d.len && c.rem != some 0 then .fail s!"no progress at {p}" else
+    .ok
+
+def checkByteRead (c : Cur) (p : Int) (n : Nat) (k : Int) (data : List UInt8) (e : String) : PV :=
+  if k < 0 then .fail s!"negative count {k}" else
+  let k := k.toNat
+  if k > n then .fail s!"{k} bytes returned, {n} requested" else
+  if data.length != k then .bad "observation length differs from n" else
+  if p < 0 then (if k > 0 then .fail "bytes returned at a negative offset" else .ok) else
+  let p := p.toNat
+  let expected := (c.dB.extract p (p + k)).toList
+  if expected.length < k then .fail s!"{k} bytes returned at {p}, logical end is {c.dB.size}" else
+  if data != expected then .fail s!"byte {((data.zip expected).takeWhile (fun (x, y) => x == y)).length} of the read at {p} differs from the data" else
+  if e == "eof" && p + k < c.dB.size then .fail s!"eof at {p}+{k}, logical end is {c.dB.size}" else
+  if e != "ok" && e != "eof" && p < c.dB.size then .fail s!"error {e} inside the data" else
+  if e == "ok" && k == 0 && n > 0 && p < c.dB.size then .fail s!"no progress at {p}" else
+  .ok
+
+def whenceBase (w : Whence) (pos : Int) (len : Nat) : Int :=
+  match w with | .start => 0 | .current => pos | .end_ => len
+
+/-- one step of the specification cursor; returns the verdict and the next cursor -/
+def checkOp (c : Cur) (op : HOp) (o : Obs) : PV × Cur :=
+  match o with
+  | .panic => (.fail "panic", c)
+  | .hang => (.fail "hang", c)
+  | .res k data e =>
+    if c.bit != isBitOp op then (.bad "op kind does not fit the reader kind", c) else
+    match op with
+    | .ra n off => (checkBitRead c off n k data e, c)
+    | .rd n =>
+      let pv := checkBitRead c c.pos n k data e
+      (pv, { c with pos := c.pos + k, rem := c.rem.map (· - k.toNat) })
+    | .raf n off =>
+      let got : Int := if e == "ok" then k else n - k
+      let pv := if e == "ok" && k != n then PV.fail s!"ReadAtFull returned {k} of {n} without error"
+        else if e != "ok" && off ≥ 0 && off + n ≤ c.d.len then PV.fail s!"ReadAtFull error {e} although the data is there"
+        else checkBitRead c off n got data (if e == "ok" then "ok" else e)
+      (pv, c)
+    | .rf n =>
+      let got : Int := if e == "ok" then k else n - k
+      let avail := c.pos ≥ 0 && c.pos + n ≤ c.d.len && (match c.rem with | some r => n ≤ r | none => true)
+      let pv := if e == "ok" && k != n then PV.fail s!"ReadFull returned {k} of {n} without error"
+        else if e != "ok" && avail then PV.fail s!"ReadFull error {e} although the data is there"
+        else checkBitRead c c.pos n got data (if e == "ok" then "ok" else e)
+      (pv, { c with pos := c.pos + got, rem := c.rem.map (· - got.toNat) })
+    | .sk off w =>
+      let target := whenceBase w c.pos c.d.len + off
+      if e == "ok" then
+        if k != target then (.fail s!"seek reported {k}, expected {target}", { c with pos := k })
+        else if k < 0 then (.fail s!"seek to negative position {k} accepted", { c with pos := k })
+        else (.ok, { c with pos := k })
+      else if 0 ≤ target && target ≤ c.seekLimit then (.fail s!"valid seek to {target} rejected ({e})", c)
+      else (.ok, c)
+    | .cl => if e == "ok" then (.ok, { c with pos := 0 }) else (.fail "clone failed", c)
+    | .ird n =>
+      let pv := checkByteRead c c.pos n k data e
+      (pv, { c with pos := c.pos + k })
+    | .isk off w =>
+      let target := whenceBase w c.pos c.dB.size + off
+      if e == "ok" then
+        if k != target then (.fail s!"seek reported {k}, expected {target}", { c with pos := k })
+        else if k < 0 then (.fail s!"seek to negative position {k} accepted", { c with pos := k })
+        else (.ok, { c with pos := k })
+      else if 0 ≤ target && target ≤ c.seekLimit then (.fail s!"valid seek to {target} rejected ({e})", c)
+      else (.ok, c)
+
+def knownKey (q : Nat) (_why : String) : Option String :=
+  if q &&& qIoSeek ≠ 0 then some "ioreadseeker-unaligned-seek" else none
+
+def histVerdict (s : Rd) (ops : List HOp) (impl : List Obs) : String := Id.run do
+  let (model, bad) := runModel s ops 0
+  if let some why := bad then return s!"BADOP model: {why}"
+  -- correspondence
+  let mobs := model.map (·.1)
+  let mut div := ""
+  if mobs != impl then
+    let i := ((mobs.zip impl).takeWhile (fun (a, b) => a == b)).length
+    let m := match mobs[i]? with | some o => o.str | none => "(no such op: the model stopped)"
+    div := s!"op{i}:{m}"
+  -- the predicate on the implementation's observations
+  if impl.length > ops.length then return "BADOP more observations than ops"
+  let mut c := mkCur s
+  let mut fail : Option (Nat × String) := none
+  let mut idx := 0
+  for (op, o) in ops.zip impl do
+    let (pv, c') := checkOp c op o
+    c := c'
+    match pv with
+    | .bad why => return s!"BADOP {why}"
+    | .fail why => if fail.isNone then fail := some (idx, why)
+    | .ok => pure ()
+    idx := idx + 1
+  let last := impl.getLast?
+  if impl.length < ops.length && !(last == some .panic || last == some .hang) then
+    return "BADOP fewer observations than ops"
+  match fail with
+  | some (i, why) =>
+    -- a modelled, documented quirk class? only when the model reproduces the implementation exactly
+    let (q, fw) := match model[i]? with | some (_, q, fw) => (q, fw) | none => (0, "")
+    -- … or a seek from current/end on the byte view of a bit string of unaligned length (same finding:
+    -- IOReadSeeker.Seek works on the bit position of the source, not on the padded byte view)
+    let relSeek := match ops[i]? with
+      | some (.isk _ .current) | some (.isk _ .end_) => c.unalignedView
+      | _ => false
+    let key := if !div.isEmpty then none
+      else if relSeek then some "ioreadseeker-unaligned-seek" else knownKey q fw
+    match key with
+    | some k => return s!"KNOWN {k} op{i}: {why}"
+    | none => return s!"PROPFAIL op{i}: {why}" ++ (if div.isEmpty then "" else s!" ;DIVERGE model={div}")
+  | none => return (if div.isEmpty then "OK" else s!"DIVERGE model={div}")
+
+/-! ### Read64 / Write64 / IOBitWriter cases -/
+
+def r64Verdict (hex sfb snb obs : String) : String :=
+  match bytesOfHex hex, sfb.toNat?, snb.toNat? with
+  | some buf, some fb, some nb =>
+    let model := match read64 buf fb nb with
+      | .ok v => toString v | .fault _ => "panic" | .hang => "hang" | .unsupported _ => "unsupported"
+    let bits := bytesToBits buf
+    let inRange := fb + nb ≤ bits.length ∧ nb ≤ 64
+    let expected := toString (ofBitsBE (slice bits fb nb))
+    let div := if model == obs then "" else s!" ;DIVERGE model={model}"
+    if inRange ∧ obs != expected then s!"PROPFAIL Read64 = {obs}, the bits are {expected}{div}"
+    else if div.isEmpty then "OK" else s!"DIVERGE model={model}"
+  | _, _, _ => "BADOP parse"
+
+def w64Verdict (sv snb hex sfb obs : String) : String :=
+  match sv.toNat?, snb.toNat?, bytesOfHex hex, sfb.toNat? with
+  | some v, some nb, some buf, some fb =>
+    let model := match write64 v nb buf fb with
+      | .ok b => hexOrDash b | .fault _ => "panic" | .hang => "hang" | .unsupported _ => "unsupported"
+    let bits := bytesToBits buf
+    let inRange := fb + nb ≤ bits.length ∧ nb ≤ 64 ∧ v < 2 ^ nb
+    let div := if model == obs then "" else s!" ;DIVERGE model={model}"
+    let good := match bytesOfHex obs with
+      | some b' => bytesToBits b' == bits.take fb ++ toBitsBE nb v ++ bits.drop (fb + nb)
+      | none => false
+    if inRange ∧ !good then s!"PROPFAIL Write64 result {obs}{div}"
+    else if div.isEmpty then "OK" else s!"DIVERGE model={model}"
+  | _, _, _, _ => "BADOP parse"
+
+def parseChunk (s : String) : Option (Nat × List UInt8) :=
+  match s.splitOn ":" with
+  | [n, hex] => do pure (← n.toNat?, ← bytesOfHex hex)
+  | _ => none
+
+def bwVerdict (chunks : List String) (obs : String) : String :=
+  match chunks.mapM parseChunk with
+  | none => "BADOP parse"
+  | some cs =>
+    if cs.any (fun (n, b) => n > 8 * b.length) then "BADOP chunk shorter than nBits" else
+    let model : Outcome BitWriter := do
+      let w ← cs.foldlM (fun w (n, b) => w.writeBits b n) ({} : BitWriter)
+      w.flush
+    let ms := match model with
+      | .ok w => hexOrDash w.out | .fault _ => "panic" | .hang => "hang" | .unsupported _ => "unsupported"
+    let all : Bits := cs.flatMap (fun (n, b) => (bytesToBits b).take n)
+    let expected := hexOrDash (bitsToBytesPadR all)
+    let div := if ms == obs then "" else s!" ;DIVERGE model={ms}"
+    if obs != expected then s!"PROPFAIL written {obs}, expected {expected}{div}"
+    else if div.isEmpty then "OK" else s!"DIVERGE model={ms}"
+
+def stepC01 (op obs : String) : String :=
+  match words op with
+  | ["r64", hex, fb, nb] => r64Verdict hex fb nb obs.trimAscii.toString
+  | ["w64", v, nb, hex, fb] => w64Verdict v nb hex fb obs.trimAscii.toString
+  | "bw" :: chunks => bwVerdict chunks obs.trimAscii.toString
+  | "h" :: _ =>
+    match op.splitOn "|" with
+    | [t, o] =>
+      let tws := (words t).drop 1
+      match parseTerm (tws.length + 1) tws with
+      | some (s, []) =>
+        let opsS := (o.splitOn ";").map (fun x => x.trimAscii.toString) |>.filter (· ≠ "")
+        match opsS.mapM parseOp with
+        | none => "BADOP op"
+        | some ops =>
+          let obsS := (obs.splitOn ";").map (fun x => x.trimAscii.toString) |>.filter (· ≠ "")
+          match obsS.mapM parseObs with
+          | none => "BADOP obs"
+          | some impl => histVerdict s ops impl
+      | _ => "BADOP term"
+    | _ => "BADOP history syntax"
+  | _ => "BADOP op"
+
+def main : IO Unit := run stepC01
